@@ -14,9 +14,11 @@ import (
 	"io"
 	"math/rand"
 	"os"
+	"runtime"
 	"sort"
 	"strconv"
 	"sync"
+	"sync/atomic"
 	"testing"
 	"testing/synctest"
 	"time"
@@ -105,7 +107,7 @@ func gen(rng *rand.Rand, fam string) scenario {
 				sc.Steps = append(sc.Steps, step{K: "sleep", D: time.Duration(1+rng.Intn(60)) * time.Millisecond})
 			case r < 92 && stops < 2:
 				stops++
-				sc.Steps = append(sc.Steps, step{K: vlib.Pick(rng, "gstop", "gstop", "stop", "both")})
+				sc.Steps = append(sc.Steps, step{K: vlib.Pick(rng, "gstop", "gstop", "stop", "both"), N: rng.Intn(2)})
 			default:
 				sc.Steps = append(sc.Steps, step{K: "wait"})
 			}
@@ -142,7 +144,7 @@ func gen(rng *rand.Rand, fam string) scenario {
 			sc.Steps = append(sc.Steps, step{K: "cancel", N: rng.Intn(64)})
 		case r < 84 && stops < 3:
 			stops++
-			sc.Steps = append(sc.Steps, step{K: vlib.Pick(rng, "gstop", "gstop", "stop", "both")})
+			sc.Steps = append(sc.Steps, step{K: vlib.Pick(rng, "gstop", "gstop", "stop", "both"), N: rng.Intn(2)})
 		case r < 92 && newch < extra:
 			newch++
 			sc.Steps = append(sc.Steps, step{K: "newchan"})
@@ -152,7 +154,7 @@ func gen(rng *rand.Rand, fam string) scenario {
 	}
 	if stops == 0 {
 		at := rng.Intn(len(sc.Steps) + 1)
-		sc.Steps = append(sc.Steps[:at], append([]step{{K: vlib.Pick(rng, "gstop", "stop", "both")}}, sc.Steps[at:]...)...)
+		sc.Steps = append(sc.Steps[:at], append([]step{{K: vlib.Pick(rng, "gstop", "stop", "both"), N: rng.Intn(2)}}, sc.Steps[at:]...)...)
 	}
 	return sc
 }
@@ -213,6 +215,9 @@ type monitor struct {
 	gsReturned   bool
 	waitHandlers bool
 	hostile      bool // the generic start-after-stop rule does not bind a client that ignores GOAWAY
+	emit         func(key, msg string)
+	flushed      int
+	stuck        bool
 }
 
 func (m *monitor) v(key, f string, a ...any) {
@@ -220,6 +225,28 @@ func (m *monitor) v(key, f string, a ...any) {
 }
 
 func (m *monitor) tick() int { m.clock++; return m.clock }
+
+func (m *monitor) flushSoft() {
+	m.mu.Lock()
+	v := m.viol[m.flushed:]
+	m.flushed = len(m.viol)
+	m.mu.Unlock()
+	for _, x := range v {
+		m.emit(x[0], x[1])
+	}
+}
+
+// flush hands the violations recorded so far to the run (they are printed at
+// once, so they survive a later hang of the tear-down on a broken tree).
+func (m *monitor) flush() {
+	m.flushSoft()
+	m.mu.Lock()
+	stuck := m.stuck
+	m.mu.Unlock()
+	if stuck {
+		panic("C25: a stop call never returned although every handler is gone; the bubble cannot be unwound (violation already reported)")
+	}
+}
 
 func (m *monitor) runningList() []string {
 	var out []string
@@ -264,6 +291,14 @@ func (m *monitor) enter(ctx context.Context) *rpcRec {
 	if m.limit > 0 {
 		if m.running[conn] == m.limit {
 			m.cnt["entries_at_exact_limit"]++
+			for _, o := range m.rpcs {
+				if o.running && o.conn == conn && o.cancelled {
+					// a handler that outlived its stream holds quota: the transport's own
+					// stream count no longer protects the limit, only the semaphore does
+					m.cnt["entries_at_limit_beside_orphaned_handler"]++
+					break
+				}
+			}
 		}
 		if m.running[conn] > m.limit {
 			m.v("handler-limit-exceeded", "connection %s: %d handlers run at once, MaxConcurrentStreams is %d; running: %v", conn, m.running[conn], m.limit, m.runningList())
@@ -399,14 +434,26 @@ func (m *monitor) release(n int) int {
 	return k
 }
 
+// releaseStubborn opens the gate of every stubborn handler, also of those that
+// have not been entered yet.
+func (m *monitor) releaseStubborn() {
+	m.mu.Lock()
+	defer m.mu.Unlock()
+	for _, r := range m.rpcs {
+		if r.spec.Kind == "stubborn" && !r.released {
+			r.released = true
+			close(r.gate)
+		}
+	}
+}
+
 type result struct {
-	viol     [][2]string
 	counters map[string]int64
 	sig      string
 }
 
-func newMonitor(sc scenario, specs []rpcSpec) *monitor {
-	m := &monitor{limit: sc.MaxStreams, running: map[string]int{}, cnt: map[string]int64{}, waitHandlers: sc.WaitForHandlers}
+func newMonitor(sc scenario, specs []rpcSpec, emit func(key, msg string)) *monitor {
+	m := &monitor{emit: emit, limit: sc.MaxStreams, running: map[string]int{}, cnt: map[string]int64{}, waitHandlers: sc.WaitForHandlers}
 	for i, sp := range specs {
 		m.rpcs = append(m.rpcs, &rpcRec{id: i, spec: sp, gate: make(chan struct{})})
 	}
@@ -433,6 +480,83 @@ type stopper struct {
 	m   *monitor
 	srv *grpc.Server
 	wg  sync.WaitGroup
+}
+
+// issue makes one or two stop calls.  grpc's Server.stop holds the server mutex
+// while it waits for handlers (after every connection is gone), so a second
+// stop call made while handlers that ignore their context are still running
+// parks on that mutex; a goroutine parked on a mutex is not durably blocked and
+// synctest.Wait would never return.  Whenever two stop calls can be outstanding
+// at once the gates of all stubborn handlers (present and future) are therefore
+// opened: either before the calls (exact variant) or shortly after them, once
+// the calls had a chance to run into each other (no verdict depends on how far
+// they got).  The same is done for every GracefulStop: the server transport's
+// reader holds maxStreamMu while it is parked behind the handler quota (which
+// takes handlers that outlive their stream, i.e. stubborn ones), and the loopy
+// writer needs that mutex to write GOAWAY, so it would park on a mutex as well.
+// A lone Stop keeps the stubborn handlers running.
+func (s *stopper) issue(spinFirst bool, kinds ...string) {
+	m := s.m
+	if sawViolation.Load() {
+		// the verdict is already decided: on a tree that is known to be broken
+		// (e.g. contexts that are never cancelled turn every gated handler into
+		// a stubborn one) only make sure the remaining cases cannot park on the
+		// server mutex for ever
+		m.release(-1)
+		synctest.Wait()
+	}
+	m.mu.Lock()
+	outstanding, stopInvolved := false, false
+	for _, c := range m.stops {
+		if !c.returned {
+			outstanding = true
+			if c.kind == "stop" {
+				stopInvolved = true
+			}
+		}
+	}
+	m.mu.Unlock()
+	for _, k := range kinds {
+		if k == "stop" {
+			stopInvolved = true
+		}
+	}
+	if len(kinds) < 2 && !outstanding && kinds[0] == "stop" {
+		s.call(kinds[0])
+		return
+	}
+	m.mu.Lock()
+	m.cnt["overlapping_stop_calls"]++
+	m.mu.Unlock()
+	if stopInvolved {
+		// A Stop overlapping another stop call: Stop closes the connections, which
+		// on a correct tree makes every gated/timed handler return at once; the
+		// calls get a window to run into each other, then every gate is opened so
+		// that nothing can outlive its connection while two calls contend for the
+		// server mutex (on a tree where Stop fails to cancel handlers this keeps the
+		// bubble from wedging; the lone-Stop cases judge that defect).
+		for _, k := range kinds {
+			s.call(k)
+		}
+		for i := 0; i < 300; i++ {
+			runtime.Gosched()
+		}
+		m.release(-1)
+		return
+	}
+	if !spinFirst {
+		m.releaseStubborn()
+		synctest.Wait()
+	}
+	for _, k := range kinds {
+		s.call(k)
+	}
+	if spinFirst {
+		for i := 0; i < 300; i++ {
+			runtime.Gosched()
+		}
+		m.releaseStubborn()
+	}
 }
 
 func (s *stopper) call(kind string) {
@@ -509,6 +633,9 @@ func (m *monitor) atQuiescence(label string) {
 	}
 }
 
+// sawViolation is set once any case of this process reported a violation.
+var sawViolation atomic.Bool
+
 func light() int {
 	if os.Getenv("VERIF_LIGHT") != "" {
 		return 6
@@ -518,7 +645,7 @@ func light() int {
 
 // ---------------------------------------------------------------- family "clients"
 
-func runClients(sc scenario) *result {
+func runClients(sc scenario, emit func(key, msg string)) *result {
 	var specs []rpcSpec
 	type loc struct{ ch, w, first, n int }
 	var locs []loc
@@ -528,7 +655,7 @@ func runClients(sc scenario) *result {
 			specs = append(specs, rs...)
 		}
 	}
-	m := newMonitor(sc, specs)
+	m := newMonitor(sc, specs, emit)
 	lis := chanfix.NewListener()
 	srv := grpc.NewServer(serverOpts(sc)...)
 	srv.RegisterService(m.service(), nil)
@@ -597,8 +724,10 @@ func runClients(sc scenario) *result {
 	}
 	nextChan := sc.Initial
 	quiesce := func(label string) {
+		m.flushSoft() // what is known so far survives a Wait that never returns on a broken tree
 		synctest.Wait()
 		m.atQuiescence(label)
+		m.flushSoft()
 	}
 	quiesce("start")
 	for _, s := range sc.Steps {
@@ -625,12 +754,11 @@ func runClients(sc scenario) *result {
 			}
 			m.mu.Unlock()
 		case "gstop":
-			st.call("gstop")
+			st.issue(s.N%2 == 0, "gstop")
 		case "stop":
-			st.call("stop")
+			st.issue(s.N%2 == 0, "stop")
 		case "both":
-			st.call("gstop")
-			st.call("stop")
+			st.issue(s.N%2 == 0, "gstop", "stop")
 		case "newchan":
 			if nextChan < len(sc.Chans) {
 				startChan(nextChan)
@@ -656,6 +784,7 @@ func runClients(sc scenario) *result {
 	for _, c := range m.stops {
 		if !c.returned {
 			m.v(c.kind+"-never-returned", "%s was called at t=%d; every handler gate is open, every timer has fired and everything is quiescent, but the call has not returned; running handlers: %v", c.kind, c.callSeq, m.runningList())
+			m.stuck = true
 		}
 	}
 	firstStopCall := 0
@@ -711,6 +840,7 @@ func runClients(sc scenario) *result {
 		kinds += c.kind[:1]
 	}
 	m.mu.Unlock()
+	m.flush()
 	for _, cc := range ccs {
 		cc.Close()
 	}
@@ -718,8 +848,8 @@ func runClients(sc scenario) *result {
 	st.wg.Wait()
 	wg.Wait()
 	srvWG.Wait()
+	m.flush()
 	m.mu.Lock()
-	res.viol = m.viol
 	if nstops > 0 && res.counters["rpcs_entered"] > 0 {
 		var ks []string
 		for k := range sigKinds {
@@ -737,8 +867,8 @@ func runClients(sc scenario) *result {
 // A scripted HTTP/2 client that does not honour SETTINGS_MAX_CONCURRENT_STREAMS
 // nor GOAWAY: it opens streams whenever the script says so, resets some, and
 // keeps opening streams after the server announced its shutdown.
-func runHostile(sc scenario) *result {
-	m := newMonitor(sc, sc.Opens)
+func runHostile(sc scenario, emit func(key, msg string)) *result {
+	m := newMonitor(sc, sc.Opens, emit)
 	m.hostile = true
 	lis := chanfix.NewListener()
 	srv := grpc.NewServer(serverOpts(sc)...)
@@ -750,21 +880,23 @@ func runHostile(sc scenario) *result {
 	res := &result{counters: m.cnt}
 	conn, _, err := lis.Dial()
 	if err != nil {
-		res.viol = append(res.viol, [2]string{"harness", "dial: " + err.Error()})
+		emit("harness", "dial: "+err.Error())
 		srv.Stop()
 		srvWG.Wait()
 		return res
 	}
 	p := wire.NewPeer(conn, false)
 	if err := p.Start(); err != nil {
-		res.viol = append(res.viol, [2]string{"harness", "start: " + err.Error()})
+		emit("harness", "start: "+err.Error())
 		srv.Stop()
 		srvWG.Wait()
 		return res
 	}
 	quiesce := func(label string) {
+		m.flushSoft() // what is known so far survives a Wait that never returns on a broken tree
 		synctest.Wait()
 		m.atQuiescence(label)
+		m.flushSoft()
 	}
 	quiesce("start")
 	next := 0
@@ -780,10 +912,10 @@ func runHostile(sc scenario) *result {
 				opened = append(opened, id)
 				m.mu.Lock()
 				m.rpcs[id].started, m.rpcs[id].startSeq = true, m.tick()
+				m.cnt["streams_opened"]++
 				m.mu.Unlock()
 				p.WriteHeaders(sid, false, 0, wire.RequestHeaders("/verif.Stop/Stream", wire.F("x-rid", strconv.Itoa(id)))...)
 				p.WriteData(sid, wire.Msg([]byte("q")), true, -1)
-				m.cnt["streams_opened"]++
 			}
 		case "rst":
 			if len(opened) > 0 {
@@ -802,12 +934,11 @@ func runHostile(sc scenario) *result {
 		case "sleep":
 			time.Sleep(s.D)
 		case "gstop":
-			st.call("gstop")
+			st.issue(s.N%2 == 0, "gstop")
 		case "stop":
-			st.call("stop")
+			st.issue(s.N%2 == 0, "stop")
 		case "both":
-			st.call("gstop")
-			st.call("stop")
+			st.issue(s.N%2 == 0, "gstop", "stop")
 		}
 		quiesce(s.K)
 	}
@@ -815,7 +946,7 @@ func runHostile(sc scenario) *result {
 	called := len(m.stops) > 0
 	m.mu.Unlock()
 	if !called {
-		st.call("gstop")
+		st.issue(false, "gstop")
 		quiesce("final-gstop")
 	}
 	// a client that ignores GOAWAY: streams opened after it has read the final
@@ -838,10 +969,10 @@ func runHostile(sc scenario) *result {
 		opened = append(opened, id)
 		m.mu.Lock()
 		m.rpcs[id].started, m.rpcs[id].startSeq, m.rpcs[id].lateOpen = true, m.tick(), true
+		m.cnt["streams_opened_after_final_goaway"]++
 		m.mu.Unlock()
 		p.WriteHeaders(sid, false, 0, wire.RequestHeaders("/verif.Stop/Stream", wire.F("x-rid", strconv.Itoa(id)))...)
 		p.WriteData(sid, wire.Msg([]byte("q")), true, -1)
-		m.cnt["streams_opened_after_stop"]++
 	}
 	quiesce("late-open")
 	m.release(-1)
@@ -865,6 +996,7 @@ func runHostile(sc scenario) *result {
 		kinds += c.kind[:1]
 		if !c.returned {
 			m.v(c.kind+"-never-returned", "%s was called at t=%d; every gate is open and everything is quiescent, but the call has not returned; running: %v", c.kind, c.callSeq, m.runningList())
+			m.stuck = true
 		}
 	}
 	for i, id := range opened {
@@ -888,14 +1020,13 @@ func runHostile(sc scenario) *result {
 		res.sig = fmt.Sprintf("hostile/stops=%s/limit=%d/atlimit=%v/rst=%v", kinds, sc.MaxStreams, res.counters["entries_at_exact_limit"] > 0, res.counters["client_cancels"] > 0)
 	}
 	m.mu.Unlock()
+	m.flush()
 	p.Close()
 	srv.Stop()
 	st.wg.Wait()
 	srvWG.Wait()
 	<-p.Done()
-	m.mu.Lock()
-	res.viol = m.viol
-	m.mu.Unlock()
+	m.flush()
 	return res
 }
 
@@ -909,17 +1040,19 @@ func runFam(t *testing.T, r *vlib.Run, fam string, n int) {
 		sc := gen(r.Rand(fam, i), fam)
 		r.Progress(fam, i, fmt.Sprintf("limit=%d steps=%d", sc.MaxStreams, len(sc.Steps)))
 		var res *result
+		emit := func(key, msg string) {
+			if r.Violation(key, fam, i, sc, "%s", msg) {
+				sawViolation.Store(true)
+			}
+		}
 		synctest.Test(t, func(t *testing.T) {
 			if fam == "hostile" {
-				res = runHostile(sc)
+				res = runHostile(sc, emit)
 			} else {
-				res = runClients(sc)
+				res = runClients(sc, emit)
 			}
 		})
 		r.Eval(1)
-		for _, x := range res.viol {
-			r.Violation(x[0], fam, i, sc, "%s", x[1])
-		}
 		keys := make([]string, 0, len(res.counters))
 		for k := range res.counters {
 			keys = append(keys, k)
@@ -943,8 +1076,8 @@ func runFam(t *testing.T, r *vlib.Run, fam string, n int) {
 
 func TestVerifC25(t *testing.T) {
 	r := vlib.Start(t, "C25")
-	runFam(t, r, "clients", r.N(220, 4000)/light())
-	runFam(t, r, "hostile", r.N(160, 3000)/light())
+	runFam(t, r, "clients", r.N(1500, 24000)/light())
+	runFam(t, r, "hostile", r.N(1000, 16000)/light())
 	r.Finish(vlib.Spec{
 		Level: "exploration",
 		Rule:  "real grpc.Server (unary + streaming methods, MaxConcurrentStreams in {unset,1..5}, NumStreamWorkers in {0,2,8}, WaitForHandlers on in 1/4) whose handlers log entry/exit and block on a gate or ctx (gated), on a gate only (stubborn) or on a virtual timer; family clients: 1-5 real channels x 1-5 workers issuing 2-8 sequential RPCs each, 10-45 steps: release 1-3 gates, cancel an open RPC at the client, virtual sleeps, GracefulStop / Stop / both at the same instant (up to 3 stop operations), channels created after the stop; family hostile: a scripted HTTP/2 client that ignores MAX_CONCURRENT_STREAMS and GOAWAY, opens 6-35 streams in bursts, resets some and opens more after the shutdown was announced. Oracles: at every GracefulStop return (and Stop return under WaitForHandlers) no handler is running and none is entered later; without Stop every RPC whose handler was entered and that the client did not cancel completes with exactly the handler's code and message; an RPC started after (stop call + quiescence) never reaches a handler; at (Stop call + quiescence) and at Stop's return every running handler's context is done; an RPC whose handler was unfinished at Stop's return is never OK at the client; handlers running per connection <= MaxConcurrentStreams at every handler entry; no handler entered twice; after opening all gates every stop call returns and every RPC ends. Non-trivial = a stop operation ran and at least one handler was entered; distinct = (family, sequence of stop kinds, limit, limit reached exactly, entries after Stop, which status oracles applied).",
